@@ -1,4 +1,5 @@
 import SaphyrVerif.Lemmas.CurSimDe
+import SaphyrVerif.Lemmas.CurSimPayload
 /-!
 Cursor simulation, part 2f: enums (`deserEnum`, `variantPayload`).  The tagged notations deserialize the
 payload from a private replay buffer that is the same on both sides.
@@ -8,23 +9,6 @@ open SaphyrVerif SaphyrVerif.Scalars SaphyrVerif.Pump SaphyrVerif.De
 
 set_option linter.unusedSimpArgs false
 set_option linter.unusedVariables false
-
-open Lean Elab Tactic Meta in
-/-- the payload of a tag-selected variant is read from a private replay buffer whose reference location
-(`tagUseSite`) differs between the two sides: transport the outcome of the left call (newest equation) to
-the `variantPayload` call over a replay cursor found on the right side of the goal, by `Sim.replay`. -/
-elab "sim_fwd_payload" : tactic => withMainContext do
-  let some (n, isOk, h) ← newestCallEq | throwError "sim_fwd_payload: no call"
-  unless n == ``De.variantPayload do throwError "sim_fwd_payload: not a payload call"
-  let tgt := (← instantiateMVars (← getMainTarget)).cleanupAnnotations
-  unless tgt.isAppOfArity ``RV 5 do throwError "sim_fwd_payload: goal"
-  let rhs := tgt.getArg! 4
-  let some t' := rhs.find? (fun e => e.isAppOfArity ``De.variantPayload 8 && (e.getArg! 7).isAppOf ``De.Cur.replay)
-    | throwError "sim_fwd_payload: no payload call on the right"
-  let t'stx ← Term.exprToSyntax t'
-  let prf ← `((SimA.variantPayload ‹SimA _› _ _ _ _ _ _ (Sim.replay _ _ _ _) : RV Eq _ $t'stx))
-  if isOk then evalTactic (← `(tactic| fwdk_eq $h, $prf))
-  else evalTactic (← `(tactic| fwde $h, $prf))
 
 macro "sim_loop_e" : tactic =>
   `(tactic| repeat' (first | sim_leaf | sim_step | sim_simp | (split <;> try (first | sim_fwd | sim_fwd_payload)) | pfe_absurd | sim_tail))
